@@ -240,6 +240,12 @@ def extra_obligations(eng, R, tier):
             cell('copy', 'any', 'HeadObject(unmapped)', k, False, True)
     for k in allowed_del:
         cell('delete', 'single', 'DeleteObject', k, True, k in acc['DeleteObject'])
+    # the HeadObject equivalent of a copy-source condition / key is the same name without the CopySource prefix;
+    # arguments that apply to the source as they are keep their name; no two arguments share a target
+    for src, dst in head_map.items():
+        want = src[len('CopySource'):] if src.startswith('CopySource') else src
+        rows.append(('copy', 'any', 'HeadObject.mapping', src, dst, want, 'mapped to its HeadObject equivalent'))
+    rows.append(('copy', 'any', 'HeadObject.mapping', 'injective', len(set(head_map.values())), len(head_map), 'no two arguments mapped to one HeadObject parameter'))
     eng.cur_root = 'table'
     eng.cur_props = ('C15',)
     for method, mode, op, k, fwd, exp, why in rows:
